@@ -818,8 +818,8 @@ PTRef ArithLogic::mkMod(vec<PTRef> && args) {
 }
 
 PTRef ArithLogic::mkIntDiv(vec<PTRef> && args) {
+    if (args.size() != 2) { throw ApiException("Integer division needs exactly two arguments"); }
     checkSortInt(args);
-    assert(args.size() == 2);
     PTRef dividend = args[0];
     PTRef divisor = args[1];
     if (not isConstant(divisor)) { throw LANonLinearException("Divisor must be constant in linear logic"); }
